@@ -5,6 +5,7 @@ the property's check does NOT report a violation (exit 1).  Exit 2 (undecided)
 is reported but tolerated.  Usage: benigntest.py [-j N] [--json out] [ID ...]"""
 import glob, json, os, shutil, subprocess, sys, tempfile
 from concurrent.futures import ThreadPoolExecutor
+import queue
 ROOT = os.path.dirname(os.path.dirname(os.path.abspath(__file__)))
 args = sys.argv[1:]
 jobs = 6
@@ -23,7 +24,13 @@ for p in sorted(glob.glob(f"{ROOT}/benign/*/*.patch")):
         vs.append((pid, os.path.basename(p)[:-6], p))
 def run(v):
     pid, name, patch = v
-    tmp = tempfile.mkdtemp(prefix="ben-")
+    # One scratch directory per worker slot, always at the same path: the Go build cache is keyed by the
+    # directory of the packages compiled, so a fresh random path per variant made every variant a cold
+    # build and grew the cache by gigabytes per run.
+    slot = SLOTS.get()
+    tmp = os.path.join(tempfile.gettempdir(), f"verif-ben-slot{slot}-{os.getuid()}")
+    shutil.rmtree(tmp, ignore_errors=True)
+    os.makedirs(tmp)
     try:
         src = os.path.join(tmp, "repo"); vd = os.path.join(tmp, "verif")
         subprocess.run(["rsync", "-a", "--exclude=.git", "/repo/", src + "/"], check=True)
@@ -41,6 +48,10 @@ def run(v):
         return (pid, name, st, " ;; ".join(f[:230] for f in fails[:3]))
     finally:
         shutil.rmtree(tmp, ignore_errors=True)
+        SLOTS.put(slot)
+SLOTS = queue.Queue()
+for _i in range(jobs):
+    SLOTS.put(_i)
 with ThreadPoolExecutor(jobs) as ex:
     res = list(ex.map(run, vs))
 bad = 0
